@@ -714,8 +714,8 @@ pub fn refresh(
 ) -> Result<(), Error> {
     verify(msk, usk)?;
 
-    let usk_id = take(&mut usk.id);
-    let new_id = msk.tsk.refresh_id(rng, usk_id)?;
+    // The USK is only modified once no more error can occur.
+    let new_id = msk.tsk.refresh_id(rng, usk.id.clone())?;
 
     let usk_rights = take(&mut usk.secrets);
     let new_rights = if keep_old_rights {
